@@ -516,6 +516,14 @@ def call_method(ip, st, recv, name, args, kwargs):
         t = SText("bytes", 1, st.fresh_name("byte"))
         st.assume(t.f(z3.IntVal(0)) == recv.e)
         return t
+    if isinstance(recv, SAtom) and name == "lower" and not args and not kwargs and all(isinstance(d, str) for d in recv.domain):
+        # str.lower() of a value from a finite set of str constants: the finite map d -> d.lower(), each image
+        # computed by CPython's own str.lower
+        low = [d.lower() for d in recv.domain]
+        e = z3.IntVal(V.atom_code(low[-1]))
+        for d, l in zip(recv.domain[:-1], low[:-1]):
+            e = z3.If(recv.e == V.atom_code(d), z3.IntVal(V.atom_code(l)), e)
+        return SAtom(e, tuple(dict.fromkeys(low)))
     if isinstance(recv, SExc) and name == "with_traceback":
         return recv
     if isinstance(recv, tuple) and name == "index":
